@@ -153,6 +153,21 @@ def L3_levels(ctx, rid, core, G):
 def string_atomic(ctx, rid, G):
     """the content of a string literal is taken verbatim: `string` and `string_value` are atomic, in every context (a non-atomic
     `string` lets pest skip implicit whitespace after the opening quote wherever the enclosing rule is not atomic, e.g. record keys)"""
+    if "string_value" in G.rules:
+        # what a literal cannot contain: the look-aheads in front of the consumed character. The printers write string content as
+        # it is, so anything excluded besides the closing delimiter (PEEK) is a character no printed string may contain
+        sv = G.expr("string_value")
+        negs = []
+        for x in G.walk(sv):
+            if x["k"] in ("neg", "neg_pred"):
+                for a in G.alts(x["e"]):
+                    negs.append(a.get("v") if a["k"] in ("ident", "str") else a["k"])
+        consumed = [x["v"] for x in G.walk(sv) if x["k"] == "ident" and x["v"] not in ("PEEK",)]
+        extra = sorted(set(str(n) for n in negs) - {"PEEK"})
+        ok_ = (not extra) if negs else None
+        if consumed != ["ANY"] and ok_:
+            ok_ = None
+        ctx.inst(rid, "grammar#string-excludes-only-its-delimiter", ok_, "inside a string literal the grammar refuses %s before each character (consumed: %s); besides the closing quote: %s" % (negs, consumed, extra or "nothing"), "blots-core/src/grammar.pest")
     for r in ("string", "string_value"):
         if r in G.rules:
             ctx.inst(rid, "grammar#%s-atomic" % r, G.ty(r) in ("atomic", "compound"), "rule %s is %s (must be @ or $: no implicit whitespace inside a string literal)" % (r, G.ty(r)), "blots-core/src/grammar.pest")
